@@ -18,13 +18,12 @@ type Outcome struct {
 	// must surface the transport's own error.
 	Protocol bool
 	// DontCare is set when the verdict for the tail is not fixed by the
-	// statement: an incomplete/padded frame whose header+payload is within 3
-	// bytes above max+28 (headers can be 31 bytes, the reader budgets 28).
+	// statement (the id space is exhausted).
 	DontCare bool
 	Events   []string // what happened, for classification of generated cases
 }
 
-const frameOverheadBudget = 28 // 1 control byte + three 9-byte varints
+const frameOverheadBudget = 31 // 1 control byte + three varints of at most 10 bytes
 
 // Reassemble is the reference for C09, written from its statement:
 //   - frames of one id are concatenated into a packet, completed by a done frame;
@@ -39,6 +38,7 @@ func Reassemble(b []byte, max int) (o Outcome) {
 	ev := func(s string) { o.Events = append(o.Events, s) }
 	wmS, wmM := uint64(1), uint64(1) // lowest acceptable id
 	var cur *Packet
+	exhausted := false
 	for {
 		fr, rem, cls := ParseFrame(b)
 		switch cls {
@@ -49,12 +49,9 @@ func Reassemble(b []byte, max int) (o Outcome) {
 		case NeedMore:
 			// incomplete tail: the reader may buffer at most max+overhead bytes of one frame
 			switch {
-			case len(b) > max+frameOverheadBudget+3:
+			case len(b) > max+frameOverheadBudget:
 				ev("oversize_tail")
 				o.Protocol = true
-			case len(b) > max+frameOverheadBudget:
-				ev("dontcare_tail")
-				o.DontCare = true
 			case len(b) > 0:
 				ev("truncated_tail")
 			}
@@ -63,15 +60,8 @@ func Reassemble(b []byte, max int) (o Outcome) {
 			}
 			return
 		}
-		// a complete frame whose total size exceeds the reader's per-frame budget: accepted
-		// when it arrives at once (if the payload fits), rejected when it trickles in.
-		if size := len(b) - len(rem); size > max+frameOverheadBudget && len(fr.Data) <= max {
-			ev("dontcare_padded")
-			o.DontCare = true
-			return
-		}
 		b = rem
-		less := fr.Stream < wmS || (fr.Stream == wmS && fr.Message < wmM)
+		less := exhausted || fr.Stream < wmS || (fr.Stream == wmS && fr.Message < wmM)
 		if less {
 			ev("id_backwards")
 			o.Protocol = true
@@ -109,9 +99,9 @@ func Reassemble(b []byte, max int) (o Outcome) {
 			if wmM == 0 { // message ids exhausted on this stream
 				wmS = fr.Stream + 1
 				if wmS == 0 {
-					ev("dontcare_ids_exhausted")
-					o.DontCare = true
-					return
+					// the largest id has been used: whatever frame follows goes backwards
+					ev("ids_exhausted")
+					exhausted = true
 				}
 			}
 		}
